@@ -46,7 +46,7 @@ pub struct ExitHook;
 
 impl ExitHook {
     fn attempt(&self, scen: &Scenario, st: &StateCtx, act: Act, expected: Option<Net>, is_ask: bool, key: &str, what: &str, sink: &mut Sink) {
-        let out = step(st.store, &scen.cfg.chain, &act.sender, &act.funds, &act.msg);
+        let out = crate::scenario::step_act(st.store, &scen.cfg.chain, &act);
         sink.extra_execs += 1;
         // the exit is a real transition: judge it with every transition oracle as well
         {
@@ -106,7 +106,7 @@ impl StateHook for ExitHook {
                 // C08: a pending ask can be rejected (and cancelled / expired, above)
                 for e in execs.iter().take(1) {
                     let act = Act::new(e, vec![], Req::RejectAsk { id: k.clone(), size: None });
-                    let out = step(st.store, &scen.cfg.chain, &act.sender, &act.funds, &act.msg);
+                    let out = crate::scenario::step_act(st.store, &scen.cfg.chain, &act);
                     sink.extra_execs += 1;
                     sink.c("C08/pending-ask-reject-attempts");
                     if !out.is_accepted() {
@@ -186,6 +186,11 @@ impl StateHook for QueryHook {
                         if a.is_none() || a != r {
                             sink.vl("C16", format!("C16/{kind}/answer-differs-from-stored-order"), format!("answer {} stored {}", lossy(&ans), lossy(raw)), last.clone());
                         }
+                        // exactly the order under the given id
+                        let ans_id = serde_json::from_slice::<Value>(&ans).ok().and_then(|v| v.get("id").and_then(|x| x.as_str().map(|s| s.to_string())));
+                        if ans_id.as_deref() != Some(id.as_str()) {
+                            sink.vl("C16", format!("C16/{kind}/returned-order-carries-another-id"), format!("asked for {id:?}, answer {}", lossy(&ans)), last.clone());
+                        }
                         // a completely filled / cancelled / expired / rejected order is not on the book
                         let closed = if side == "ask" {
                             decode_ask(id, &ans).map(|x| x.size == 0).unwrap_or(false)
@@ -222,7 +227,7 @@ impl StateHook for QueryHook {
                             } else {
                                 Act::new(&owner, vec![], Req::CancelBid { id: id.clone() })
                             };
-                            let out = step(st.store, &scen.cfg.chain, &act.sender, &act.funds, &act.msg);
+                            let out = crate::scenario::step_act(st.store, &scen.cfg.chain, &act);
                             sink.extra_execs += 1;
                             match out {
                                 Outcome::Accepted(a) => {
